@@ -94,8 +94,11 @@ fn threads(id: String, seed: u64, max_nodes: usize) -> Value {
     // the producer -> relay channel is unbounded, or bounded with capacity 1 / 2 (the producer then has to wait for the relay);
     // nothing may ever be lost, whatever the channel flavour
     let (s1, r1) = match seed % 3 { 0 => unbounded(), 1 => crossbeam_channel::bounded(1), _ => crossbeam_channel::bounded(2) };
-    let (s2, r2) = unbounded();
+    // ... and so is the relay -> receiver channel (the relay then has to wait for the receiver, which keeps polling until the relay is done)
+    let (s2, r2) = match (seed / 3) % 3 { 0 => unbounded(), 1 => crossbeam_channel::bounded(1), _ => crossbeam_channel::bounded(3) };
     let (so, ro) = unbounded::<Value>();
+    let relay_done = std::sync::Arc::new(std::sync::atomic::AtomicBool::new(false));
+    let (rd1, rd2) = (relay_done.clone(), relay_done.clone());
     let prod_done = std::sync::Arc::new(std::sync::atomic::AtomicBool::new(false));
     let pd = prod_done.clone();
     let prod_h = std::thread::spawn(move || {
@@ -120,17 +123,23 @@ fn threads(id: String, seed: u64, max_nodes: usize) -> Value {
             // stop once the producer had finished before a poll that found the channel empty (or after plenty of polls)
             if (done_before && !found && h >= relay.nodes.len()) || (done_before && k > 400) { break; }
         }
+        rd1.store(true, std::sync::atomic::Ordering::SeqCst);
         relay
     });
     let so2 = so.clone();
     let recv_h = std::thread::spawn(move || {
         let mut rng = StdRng::seed_from_u64(seed ^ 2);
         let mut recv = Bdd::with_receiver(r2);
-        for k in 0..40 {
+        let mut k = 0;
+        while k < 40 || (!rd2.load(std::sync::atomic::Ordering::SeqCst) && k < 100_000) {
             let h = rng.gen_range(0..recv.nodes.len() + 4);
             let found = recv.recv(Term(h));
-            so2.send(json!({"a": "recv", "seq": k, "h": h, "found": found, "nodes": nodes_json(&recv)})).unwrap();
+            if k < 400 {
+                so2.send(json!({"a": "recv", "seq": k, "h": h, "found": found, "nodes": nodes_json(&recv)})).unwrap();
+            }
+            k += 1;
             if k % 7 == 6 { std::thread::yield_now(); }
+            if k > 40 { std::thread::sleep(std::time::Duration::from_micros(200)); }
         }
         recv
     });
@@ -146,7 +155,8 @@ fn threads(id: String, seed: u64, max_nodes: usize) -> Value {
     let f2 = recv.recv(Term(last));
     steps.push(json!({"a": "recv", "seq": 100001, "h": last, "found": f2, "nodes": nodes_json(&recv)}));
     json!({"kind": "frontend", "id": id, "mode": "threads", "prod": nodes_of(&prod_nodes), "stream": nodes_of(&prod_nodes[2..]), "steps": steps,
-           "final_relay": nodes_json(&relay), "final_recv": nodes_json(&recv), "channel": (["unbounded", "bounded1", "bounded2"][(seed % 3) as usize])})
+           "final_relay": nodes_json(&relay), "final_recv": nodes_json(&recv), "channel": (["unbounded", "bounded1", "bounded2"][(seed % 3) as usize]),
+           "channel2": (["unbounded", "bounded1", "bounded3"][((seed / 3) % 3) as usize])})
 }
 
 pub fn main(args: &[String]) {
@@ -182,8 +192,9 @@ pub fn main(args: &[String]) {
     let l3 = if tier == "thorough" { 4 } else { 3 };
     let total = alphabet.len().pow(l3 as u32);
     for code in 0..total {
-        // thorough: length 4 is sampled 1 in 3
+        // thorough: length 4 is sampled 1 in 3; the per-feature-build workload takes 1 in 10 of length 3
         if l3 == 4 && code % 3 != 0 { continue; }
+        if tier == "feat" && code % 10 != 0 { continue; }
         let mut c = code;
         let mut sched = Vec::new();
         for _ in 0..l3 {
@@ -196,7 +207,7 @@ pub fn main(args: &[String]) {
         count += 1;
     }
     // (2) seeded long schedules on longer streams
-    let nrand = if tier == "thorough" { 3000 } else { 400 };
+    let nrand = if tier == "thorough" { 3000 } else if tier == "feat" { 100 } else { 400 };
     for k in 0..nrand {
         let mn = rng.gen_range(3..=14);
         let len = rng.gen_range(5..=40);
@@ -212,7 +223,7 @@ pub fn main(args: &[String]) {
         count += 1;
     }
     // (3) free-running threads
-    let nthr = if tier == "thorough" { 400 } else { 60 };
+    let nthr = if tier == "thorough" { 400 } else if tier == "feat" { 18 } else { 60 };
     for k in 0..nthr {
         let mn = rng.gen_range(4..=30);
         let seed: u64 = rng.gen();
